@@ -118,18 +118,40 @@ func (dss *dataStoreSet) getDb(index int, create bool) (ds *dataStore, valid boo
 	return
 }
 
-func (dss *dataStoreSet) flushDb(index int) {
+// empties one database in place: every client that has selected it keeps
+// using the same database object and sees it empty right away
+func (dss *dataStoreSet) flushDb(index int, caller *dataStoreCommand) {
 	dss.mu.Lock()
-	defer dss.mu.Unlock()
+	ds, exists := dss.dbs[index]
+	dss.mu.Unlock()
 
-	delete(dss.dbs, index)
+	if exists {
+		dss.flushStore(ds, caller)
+	}
 }
 
-func (dss *dataStoreSet) flushAll() {
+// empties every database in place
+func (dss *dataStoreSet) flushAll(caller *dataStoreCommand) {
 	dss.mu.Lock()
-	defer dss.mu.Unlock()
+	all := make([]*dataStore, 0, len(dss.dbs))
+	for _, ds := range dss.dbs {
+		all = append(all, ds)
+	}
+	dss.mu.Unlock()
 
-	dss.dbs = map[int]*dataStore{}
+	for _, ds := range all {
+		dss.flushStore(ds, caller)
+	}
+}
+
+func (dss *dataStoreSet) flushStore(ds *dataStore, caller *dataStoreCommand) {
+	if caller != nil && caller.ds == ds {
+		// the caller's own command object, so that a flush queued in MULTI
+		// re-enters the lock EXEC already holds
+		caller.flush()
+	} else {
+		ds.newDataStoreCommand().flush()
+	}
 }
 
 func (dss *dataStoreSet) getUser(userName string) (dsu *dataStoreUser, exists bool) {
